@@ -45,7 +45,10 @@ PROP = dict(
                            "monitor:append-fixed-refused": 100000, "monitor:append-fixed-refused-after-head": 50000,
                            "monitor:append-fixed-accepted": 100000,
                            "mpt_dispatch_hash": 500000, "monitor:dispatch-compared": 500000, "dispatch:word-cut-nul-sep": 100000,
-                           "dispatch:word-cut-space-sep": 50000, "dispatch:registered-word": 1000, "dispatch:unknown-word": 300}),
+                           "dispatch:word-cut-space-sep": 50000, "dispatch:registered-word": 1000, "dispatch:unknown-word": 300,
+                           "mpt_message_property": 1000000, "monitor:property-compared": 150000,
+                           "property:fragmented-run-with-refusal": 100000, "property:accepted": 300,
+                           "property:refused-by-handler": 300, "property:refused-no-assignment": 100, "property:refused-too-long": 10}),
               dict(name="c17_cxx", memcheck=500, src=["c17_cxx.cpp"], libs=["mpt++", "mptio", "mptplot", "mptcore"], batch=512,
                    floors={"message::read": 200000, "message::length": 200000, "monitor:read-step": 200000,
                            "state:two-or-more-fragments": 10000, "state:has-empty-fragment": 10000,
